@@ -37,6 +37,9 @@ type store struct {
 	reqID   uint64
 }
 
+// smallWriteBuffer > 0: stores are opened with this write buffer size (set around the HR cases only)
+var smallWriteBuffer = 0
+
 var baseTs = time.Now().UnixNano()
 var tsCounter int64
 
@@ -76,6 +79,10 @@ func openStoreCluster0(dir, eng string, keep int, mc node.MachineConfig, ci comm
 	}
 	opts.RockOpts.EngineType = eng
 	engine.FillDefaultOptions(&opts.RockOpts)
+	if smallWriteBuffer > 0 {
+		// a write buffer of a few KB: the memtable fills (and the engine rolls to a new WAL file) after a handful of writes
+		opts.RockOpts.WriteBufferSize = smallWriteBuffer
+	}
 	w := wait.New()
 	var sm node.StateMachine
 	var err error
